@@ -548,7 +548,9 @@ class StateMachine:
         # the iteration that is still in progress
         should_engage = self.__should_engage
         self.execute()
-        self.__should_engage = should_engage
+        if self.__engaged:
+            # ... unless the machine was stopped meanwhile: done() ends it
+            self.__should_engage = should_engage
 
     def done(self) -> None:
         """Call this function to end execution of the state machine.
